@@ -56,10 +56,11 @@ TEXTS = {
                      "capacity roundup32(maximum) - through every growth step (new buffer, JUMP marker, link) and every move of the consumer into the next buffer: every accepted element returned exactly once in order, "
                      "nothing else returned, an offer refused exactly when the queue holds its maximum (C16_refused_exactly_when_full, C16_size_bounded). The model (push split into reserve/publish) is compared with the "
                      "implementation after every call over all capacity pairs and growth steps, including producer-parked states; lemmas for arbitrary states: empty only when caught up, the consumer waits for a reserved "
-                     "slot, no phantom element. Linearizability of the producers' CAS loop under concurrent producers is not a Coq theorem (free-running oracles + parked windows).",
+                     "slot, no phantom element. C16_concurrent_fifo (theories/MpscConc.v): every interleaving of reserve (up to the winning index CAS, growth included) / publish (the slot store) / pop steps of any number of producers and the consumer is explained by a FIFO of reservations "
+                     "(exactly once, reservation order = per-producer order, the consumer waits at a reserved unpublished cell, refusal exactly when full). The loads inside one reserve (CAS retry, spinning during another producer's growth step) are atomic in the model; free-running oracles and parked-resize windows exercise them.",
                design_ref="DESIGN.md section 0.2 and section 5, C16",
                note="Trusted: Coq kernel, extraction, OCaml replayer, Go harness, hook verifPoint in mpsc.go (tag verif). Interleavings beyond one parked producer are covered by free-running oracle checks only.",
-               technique="Coq refinement proof (chunked queue = bounded FIFO, all capacities and push/pop sequences) + executable model with correspondence replay and hook-parked schedules"),
+               technique="Coq refinement proofs (sequential: chunked queue = bounded FIFO; concurrent producers at reserve/publish granularity: FIFO of reservations, all interleavings) + executable model with correspondence replay and hook-parked schedules"),
     "C17": dict(text="Coq theorem over a small-step model of ring.add/drainTo (one step per atomic access): for every schedule and any number of producers the invariant holds, hence delivered is a prefix of "
                      "recorded (nothing unrecorded, nothing twice), at most 16 entries are held, and a drain at quiescence delivers everything recorded. The model is tied to the code by executing macro "
                      "schedules (including producers parked between CAS and store) on the real ring and comparing status, drained values, head, tail and slot occupancy; the striped table is covered by implementation oracles.",
